@@ -48,11 +48,14 @@ pub struct Opts {
     pub simple: bool,
     /// mostly declaration sections, records (with variant parts) emphasised
     pub decl_heavy: bool,
+    /// a (nested) generic type reference as the left operand of `=` / `<>` (C02 only: `>` `=`
+    /// must not fuse)
+    pub typeref_cmp: bool,
 }
 
 impl Default for Opts {
     fn default() -> Self {
-        Opts { mlstr: false, asm: false, anon: true, generics: true, ascii_only: false, directives: true, simple: false, decl_heavy: false }
+        Opts { mlstr: false, asm: false, anon: true, generics: true, ascii_only: false, directives: true, simple: false, decl_heavy: false, typeref_cmp: false }
     }
 }
 
@@ -360,6 +363,27 @@ impl<'a, 'b> B<'a, 'b> {
     }
 
     pub fn expr(&mut self, lvl: u32) {
+        if self.opts.typeref_cmp && self.opts.generics && lvl < 2 && self.t.chance(1, 30) {
+            // TList<TArray<Integer>> = AClass
+            self.tag("generic-typeref-compare");
+            self.named("TList");
+            self.op("<");
+            let nested = self.t.chance(2, 3);
+            if nested {
+                self.named("TArray");
+                self.op("<");
+            }
+            self.type_name();
+            if nested {
+                self.op(">");
+            }
+            self.op(">");
+            let o = *self.t.pick(&["=", "<>"]);
+            self.op(o);
+            self.add_expr(lvl + 1);
+            self.tag("relational");
+            return;
+        }
         self.add_expr(lvl);
         if lvl < 3 && self.spend() && self.t.chance(1, 4) {
             let o = *self.t.pick(&["=", "<>", "<", ">", "<=", ">=", "in", "is"]);
